@@ -376,6 +376,50 @@ impl<'tcx> Cx<'tcx> {
                 }
                 obj(vec![("struct", s(self.path(def.did()))), ("fields", J::Arr(v))])
             }
+            ty::Ref(_, inner, _) if matches!(inner.kind(), ty::Str | ty::Slice(_)) => {
+                // fat pointer: (ptr, len)
+                let ptr_size = tcx.data_layout.pointer_size();
+                let range = AllocRange { start: rustc_abi::Size::from_bytes(off), size: ptr_size };
+                let lrange = AllocRange { start: rustc_abi::Size::from_bytes(off + ptr_size.bytes()), size: ptr_size };
+                let len = match alloc.read_scalar(&tcx, lrange, false) {
+                    Ok(Scalar::Int(i)) => i.to_bits(ptr_size) as u64,
+                    _ => return obj(vec![("opaque", s("fat ref len"))]),
+                };
+                match alloc.read_scalar(&tcx, range, true) {
+                    Ok(Scalar::Ptr(p, _)) => {
+                        let (prov, poff) = p.into_raw_parts();
+                        match tcx.global_alloc(prov.alloc_id()) {
+                            GlobalAlloc::Memory(a) => {
+                                let al = a.inner();
+                                match inner.kind() {
+                                    ty::Str => {
+                                        let b = al.inspect_with_uninit_and_ptr_outside_interpreter((poff.bytes() as usize)..((poff.bytes() + len) as usize));
+                                        match std::str::from_utf8(b) {
+                                            Ok(st) => obj(vec![("str", s(st))]),
+                                            Err(_) => obj(vec![("opaque", s("non-utf8 str"))]),
+                                        }
+                                    }
+                                    ty::Slice(elem) => {
+                                        let env2 = TypingEnv::fully_monomorphized();
+                                        let el = match tcx.layout_of(env2.as_query_input(*elem)) {
+                                            Ok(l) => l.size.bytes(),
+                                            Err(_) => return obj(vec![("opaque", s("slice elem layout"))]),
+                                        };
+                                        let mut v = vec![];
+                                        for i in 0..len {
+                                            v.push(self.read_alloc_value(al, poff.bytes() + i * el, *elem, depth + 1));
+                                        }
+                                        obj(vec![("ref", J::Arr(v))])
+                                    }
+                                    _ => obj(vec![("opaque", s("fat ref"))]),
+                                }
+                            }
+                            _ => obj(vec![("opaque", s("fat ref target"))]),
+                        }
+                    }
+                    _ => obj(vec![("opaque", s("fat ref"))]),
+                }
+            }
             ty::Ref(_, inner, _) => {
                 // pointer into another allocation
                 let ptr_size = tcx.data_layout.pointer_size();
@@ -405,7 +449,17 @@ impl<'tcx> Cx<'tcx> {
                     }
                 }
             }
-            GlobalAlloc::Static(did) => obj(vec![("opaque", s(format!("static item {} (mutable or interior-mutable global state)", self.path(did))))]),
+            GlobalAlloc::Static(did) => {
+                let sty = tcx.type_of(did).instantiate_identity().skip_norm_wip();
+                let frozen = !tcx.is_mutable_static(did) && sty.is_freeze(tcx, TypingEnv::fully_monomorphized());
+                if frozen {
+                    if let Ok(alloc) = tcx.eval_static_initializer(did) {
+                        let v = self.read_alloc_value(alloc.inner(), off, t, depth);
+                        return obj(vec![("ref", v)]);
+                    }
+                }
+                obj(vec![("opaque", s(format!("static item {} (mutable or interior-mutable global state)", self.path(did))))])
+            }
             _ => obj(vec![("opaque", s("nonmemory alloc"))]),
         }
     }
@@ -452,7 +506,41 @@ impl<'tcx> Cx<'tcx> {
                 }
             }
             ConstValue::ZeroSized => J::Null,
-            ConstValue::Slice { .. } => obj(vec![("opaque", s("slice"))]),
+            ConstValue::Slice { alloc_id, meta } => {
+                // &str / &[T] constants: decode the pointee
+                let inner = match t.kind() {
+                    ty::Ref(_, inner, _) => *inner,
+                    _ => return obj(vec![("opaque", s("slice"))]),
+                };
+                match tcx.global_alloc(alloc_id) {
+                    GlobalAlloc::Memory(a) => {
+                        let al = a.inner();
+                        match inner.kind() {
+                            ty::Str => {
+                                let bytes = al.inspect_with_uninit_and_ptr_outside_interpreter(0..(meta as usize));
+                                match std::str::from_utf8(bytes) {
+                                    Ok(st) => obj(vec![("str", s(st))]),
+                                    Err(_) => obj(vec![("opaque", s("non-utf8 str"))]),
+                                }
+                            }
+                            ty::Slice(elem) => {
+                                let env = TypingEnv::fully_monomorphized();
+                                let el = match tcx.layout_of(env.as_query_input(*elem)) {
+                                    Ok(l) => l.size.bytes(),
+                                    Err(_) => return obj(vec![("opaque", s("slice elem layout"))]),
+                                };
+                                let mut v = vec![];
+                                for i in 0..meta {
+                                    v.push(self.read_alloc_value(al, i * el, *elem, 1));
+                                }
+                                obj(vec![("ref", J::Arr(v))])
+                            }
+                            _ => obj(vec![("opaque", s("slice"))]),
+                        }
+                    }
+                    _ => obj(vec![("opaque", s("slice"))]),
+                }
+            }
             ConstValue::Indirect { alloc_id, offset } => match tcx.global_alloc(alloc_id) {
                 GlobalAlloc::Memory(a) => self.read_alloc_value(a.inner(), offset.bytes(), t, 0),
                 _ => obj(vec![("opaque", s("indirect nonmemory"))]),
@@ -902,6 +990,34 @@ fn dump(tcx: TyCtxt<'_>) {
                         ("container", info),
                         ("vis", s(vis)),
                         ("item", s(tcx.item_name(did).as_str())),
+                    ]),
+                ));
+            }
+            DefKind::Static { .. } => {
+                let t = tcx.type_of(did).instantiate_identity().skip_norm_wip();
+                let name = cx.path(did);
+                let frozen = !tcx.is_mutable_static(did) && t.is_freeze(tcx, TypingEnv::fully_monomorphized());
+                let val = if frozen {
+                    match tcx.eval_static_initializer(did) {
+                        Ok(alloc) => cx.read_alloc_value(alloc.inner(), 0, t, 0),
+                        Err(_) => obj(vec![("opaque", s("eval error"))]),
+                    }
+                } else {
+                    obj(vec![("opaque", s("mutable or interior-mutable static"))])
+                };
+                let info = impl_info(&mut cx, did);
+                let tyj = cx.ty(t);
+                consts.push((
+                    name,
+                    obj(vec![
+                        ("ty", tyj),
+                        ("ty_s", s(format!("{}", t))),
+                        ("val", val),
+                        ("span", cx.loc(tcx.def_span(did))),
+                        ("container", info),
+                        ("vis", s(format!("{:?}", tcx.visibility(did)))),
+                        ("item", s(tcx.item_name(did).as_str())),
+                        ("static", J::Bool(true)),
                     ]),
                 ));
             }
